@@ -1054,7 +1054,7 @@ def run_unit(unit, timeout=600, with_canary=True):
             # not a violation of the unit's property; such a failure alone is left undecided
             real2 = [e for e in real if "arithmetic underflow/overflow" not in e.get("message", "")]
             if real and not real2:
-                res["reason"] = "only arithmetic-overflow obligations of a counter over an unbounded feed failed (unit marked counter-overflow-undecided)"
+                res["reason"] = "only arithmetic-overflow obligations failed in a unit whose property is not about arithmetic (marked counter-overflow-undecided)"
                 res["errors"] = errs
                 return res
             real = real2 or real
